@@ -1,6 +1,7 @@
 package inverted
 
 import (
+	"context"
 	"strings"
 
 	"github.com/semafind/semadb/diskstore"
@@ -215,4 +216,80 @@ func VerifInvertedProcessChange() {
 		}
 	}
 	vassert("one-bucket-key-per-live-value", cnt == distinct)
+}
+
+// C02(4,5): string-array index. The array diff (values added / removed between the previous and
+// the current array, repeated elements included) runs through the real channel pipeline; the
+// index is then queried cold with containsAll / containsAny.
+var verifWords = []string{"a", "b", "c"}
+
+func drawWords() []string {
+	n := nondetIntRange(0, vparam("ARR", 2))
+	out := make([]string, n)
+	for i := range out {
+		out[i] = verifWords[nondetIntRange(0, vparam("WORDS", 3)-1)]
+	}
+	return out
+}
+
+func contains(arr []string, w string) bool {
+	for _, x := range arr {
+		if x == w {
+			return true
+		}
+	}
+	return false
+}
+
+func applyArrayChanges(bucket diskstore.Bucket, changes []IndexArrayChange[string]) error {
+	inv := NewIndexInvertedArrayString(bucket, models.IndexStringArrayParameters{IndexStringParameters: models.IndexStringParameters{CaseSensitive: true}})
+	q := make(chan IndexArrayChange[string])
+	go func() {
+		for _, c := range changes {
+			q <- c
+		}
+		close(q)
+	}()
+	return <-inv.InsertUpdateDelete(context.Background(), q)
+}
+
+func VerifStringArrayIndex() {
+	bucket := verifBucket()
+	// point 1 and 2 get arrays, then point 1 is updated (or its field removed)
+	a1, a2 := drawWords(), drawWords()
+	vassert("insert-ok", applyArrayChanges(bucket, []IndexArrayChange[string]{{Id: 1, CurrentData: a1}, {Id: 2, CurrentData: a2}}) == nil)
+	cur1 := a1
+	if nondetBool() {
+		next := drawWords()
+		if nondetBool() {
+			next = nil // the field is removed
+		}
+		vassert("update-ok", applyArrayChanges(bucket, []IndexArrayChange[string]{{Id: 1, PreviousData: a1, CurrentData: next}}) == nil)
+		cur1 = next
+	}
+	vcover("reached")
+	query := drawWords()
+	vassume(len(query) > 0) // validation refuses an empty value list
+	op := models.OperatorContainsAll
+	if nondetBool() {
+		op = models.OperatorContainsAny
+	}
+	r := NewIndexInvertedArrayString(bucket, models.IndexStringArrayParameters{IndexStringParameters: models.IndexStringParameters{CaseSensitive: true}})
+	set, err := r.Search(models.SearchStringArrayOptions{Value: query, Operator: op})
+	vassert("search-ok", err == nil && set != nil)
+	if err != nil || set == nil {
+		return
+	}
+	for id, arr := range map[uint64][]string{1: cur1, 2: a2} {
+		all, any := true, false
+		for _, w := range query {
+			if contains(arr, w) {
+				any = true
+			} else {
+				all = false
+			}
+		}
+		want := (op == models.OperatorContainsAll && all) || (op == models.OperatorContainsAny && any)
+		vassert("point-returned-iff-its-array-satisfies-the-operator", set.Contains(id) == want)
+	}
 }
